@@ -205,6 +205,7 @@ func check(prop, tier string) int {
 	var solverTime float64
 	bySolver := map[string]int{}
 	knownSeen := []string{}
+	knownObl := []string{}
 	auxFailed := []string{}
 	for _, r := range results {
 		o := r.Ob
@@ -239,6 +240,10 @@ func check(prop, tier string) int {
 		if kf != nil {
 			fmt.Printf("KNOWN-FINDING: property=%s %s (obligation %s)\n", prop, kf.WhatFails, o.Name)
 			knownSeen = append(knownSeen, kf.ID)
+			// the obligation of a listed open finding is reported by that line and under known_finding_obligations;
+			// it is not part of what this run claims to have proved
+			nObl--
+			knownObl = append(knownObl, o.Name)
 			continue
 		}
 		body := r.Status + " " + r.Solver + "\n" + r.Detail + "\n" + trimModel(r.Model)
@@ -302,7 +307,7 @@ func check(prop, tier string) int {
 	}
 	// open findings whose obligation no longer exists: report (the contract moved)
 	writeEvidence(prop, tier, seed, time.Since(t0).Seconds(), recs, nObl, nDis, funcs, assumed, bySolver, violations, spec, map[string]interface{}{
-		"solver_seconds": round3(solverTime), "known_findings_seen": knownSeen, "aux_not_proved": auxFailed, "dropped_statements": dropped, "timeout_s": timeout, "finding_replays": replayLog, "must_fail_canaries": canaryLog, "canaries_not_detected": canaryMissed})
+		"solver_seconds": round3(solverTime), "known_findings_seen": knownSeen, "known_finding_obligations": knownObl, "aux_not_proved": auxFailed, "dropped_statements": dropped, "timeout_s": timeout, "finding_replays": replayLog, "must_fail_canaries": canaryLog, "canaries_not_detected": canaryMissed})
 	if violations > 0 {
 		return 1
 	}
